@@ -58,7 +58,7 @@ def run(chk, tier, seed, replay):
         res = parallel_map(ad.replay, jobs, chunk=1000)
         for (kind, h), bad in zip(jobs, res):
             chk.case((kind, json.dumps([(e["op"], e["a"], e["v"], e["batch"]) for e in h])),
-                     nontrivial=sum(1 for e in h if e["op"] != "write") >= 2)
+                     nontrivial=sum(1 for e in h if e["op"] in ("apply", "apply_shape")) >= 2)
             chk.replayed += 1
             if bad:
                 chk.mismatch({"kind": kind, "hist": h}, bad, kind=bad.get("sig"), what=bad["what"])
